@@ -73,3 +73,185 @@ def run(ctx):
     ctx.ob(rid, "searchmoves-vs-transposition-table", ok,
            "" if ok else "search_negamax probes the transposition table at the root before the searchmoves filter, and the table is not cleared at the start of every go: an entry stored by an earlier search of the same position answers with a move outside searchmoves",
            ctx.where(bm), sample={"table_cleared_per_go": cleared, "filter_precedes_probe": filtered_first})
+
+
+def loop_body_paths(f, cfg, hdr, limit=4000):
+    """acyclic block paths of one iteration of the natural loop with header `hdr`: from the header to a back edge or
+    to the first block outside the body"""
+    body = {hdr}
+    for (a, h) in cfg.back_edges():
+        if h != hdr:
+            continue
+        work = [a]
+        while work:
+            x = work.pop()
+            if x in body:
+                continue
+            body.add(x)
+            work.extend(cfg.pred[x])
+    out = []
+    stack = [(hdr, [hdr])]
+    while stack:
+        b, path = stack.pop()
+        succs = [x for x in cfg.succ[b] if not f["blocks"][x]["cleanup"]]
+        if not succs:
+            out.append((path, "end"))
+        for x in succs:
+            if x == hdr:
+                out.append((path + [x], "next-iteration"))
+            elif x not in body:
+                out.append((path + [x], "leaves-loop"))
+            elif x in path:
+                continue        # inner cycle: not followed
+            else:
+                stack.append((x, path + [x]))
+        if len(out) > limit:
+            raise OverflowError("more than %d paths through one loop iteration" % limit)
+    return out, body
+
+
+def r7_first_result_kept(ctx):
+    rid = "C07.R7"
+    ctx.rule(rid, "in Search::best_move a completed, non-aborted iteration is never discarded while no earlier result exists: every path through one iteration on which the search was not aborted either stores its move as the answer or has tested that an answer already exists (otherwise a zero or near-zero time budget yields `bestmove 0000` in a position with legal moves)", floor=1)
+    from ..expr import PathEval
+    f = ctx.fn(rid, SEARCH + "best_move")
+    cfg = Cfg(f)
+    names = {int(k): v for k, v in f.get("names", {}).items()}
+    bm = [l for l, n in names.items() if n == "best_move"]
+    if len(bm) != 1:
+        ctx.lost(rid, "local `best_move` of Search::best_move")
+        return
+    bm = bm[0]
+    rec = [b for b in sorted(cfg.reach) if f["blocks"][b]["term"]["k"] == "call" and f["blocks"][b]["term"]["callee"].get("key") == SEARCH + "search_negamax"]
+    heads = sorted({h for (a, h) in cfg.back_edges() if rec and cfg.dominates(h, rec[0])})
+    if len(rec) != 1 or len(heads) != 1:
+        ctx.lost(rid, "the iteration loop of Search::best_move around its one search_negamax call")
+        return
+    try:
+        paths, body = loop_body_paths(f, cfg, heads[0])
+    except OverflowError as e:
+        ctx.lost(rid, str(e))
+        return
+    store = set()
+    from ..expr import Exprs
+    ex_ = Exprs(f)
+    for b in body:
+        for s in f["blocks"][b]["stmts"]:
+            d = s["dst"]
+            if d is not None and not d["p"] and d["l"] == bm:
+                tv = ex_.rvalue(s["rv"])
+                if tv[0] == "agg" and tv[2].endswith("Option::Some"):
+                    store.add(b)
+    if not store:
+        ctx.lost(rid, "assignment best_move = Some(..) inside the iteration loop")
+        return
+    bad = []
+    judged = 0
+    for path, how in paths:
+        if rec[0] not in path:
+            continue        # the loop test failed: no iteration ran
+        pe = PathEval(f, path)
+        aborted = None
+        knows_answer = False
+        timing = []
+        for (d, c, b, ty) in pe.conds:
+            if path.index(b) < path.index(rec[0]):
+                continue
+            truth = c != ("in", (0,))
+            lv = list(leaves(d))
+            if any(x[0] == "f" and x[2] == "stop_as_soon_as_possible" for x in lv):
+                aborted = True if truth else (aborted or False)
+            elif any(x[0] == "call" and x[1].endswith("Option::is_none") for x in lv) and any(x[0] == "f" and x[2] == "mv" for x in lv):
+                aborted = True if truth else (aborted or False)
+            elif any(x == ("local", bm) for x in lv) or (d[0] == "discr" and ("local", bm) in list(leaves(d))):
+                knows_answer = True
+            else:
+                timing.append(show(d)[:90])
+        if aborted is None or aborted:
+            continue
+        judged += 1
+        if not (store & set(path)) and not knows_answer:
+            bad.append(timing)
+    ok = judged >= 1 and not bad
+    ctx.ob(rid, "best_move|completed-iteration-kept-when-nothing-else", ok,
+           "" if ok else ("%d path(s) through one iteration finish the search normally (no stop flag, a move was found) and discard its move without having tested whether an answer exists yet; they branch on %s: with a zero budget the first iteration is discarded and the go is answered with the null move" % (len(bad), sorted({t for ts in bad for t in ts})[:3]) if bad else "no non-aborted path through an iteration found"),
+           ctx.where(f), sample={"iteration_paths": len(paths), "non_aborted_paths": judged})
+
+
+def r8_root_exits(ctx):
+    rid = "C07.R8"
+    ctx.rule(rid, "search_negamax can leave without a move before searching any child only through a reviewed exit when it is the root (ply_depth_from_root == 0): the answer of a go is the root's move, and a move-less root exit in a position with legal moves is a null bestmove", floor=4)
+    from ..expr import Exprs
+    f = ctx.fn(rid, SEARCH + "search_negamax")
+    cfg, ex = Cfg(f), Exprs(f)
+    rec = [b for b in sorted(cfg.reach) if f["blocks"][b]["term"]["k"] == "call" and f["blocks"][b]["term"]["callee"].get("key") == SEARCH + "search_negamax"]
+    heads = sorted({h for (a, h) in cfg.back_edges() if rec and cfg.dominates(h, rec[0])})
+    if len(rec) != 1 or len(heads) != 1:
+        ctx.lost(rid, "the move loop of search_negamax")
+        return
+    hdr = heads[0]
+    PLY = ("param", 3)
+    REVIEWED = {
+        "time": "sets stop_as_soon_as_possible before returning: best_move() treats the iteration as aborted and keeps the previous iteration's move (the poll cannot fire in the first root: the node counter is 0 there)",
+        "searchmoves-empty": "the root's move list is empty after the searchmoves filter: there is nothing to answer with",
+        "horizon": "taken only when ply_depth_from_root == max_ply; best_move() calls with max_ply >= 1, so never at the root",
+    }
+    n = 0
+    for b in sorted(cfg.reach):
+        if f["blocks"][b]["cleanup"] or cfg.dominates(hdr, b):
+            continue
+        t = f["blocks"][b]["term"]
+        if not (t["k"] == "call" and t.get("dest") and t["dest"]["l"] == 0 and not t["dest"]["p"]):
+            continue
+        callee = t["callee"].get("key") or ""
+        if not callee.endswith("ValuedMove::leaf"):
+            continue      # transposition exits return the stored ValuedMove with its move; quiescence is a horizon exit
+        n += 1
+        guards = []
+        for (a, sb) in sorted(cfg.control_deps_transitive(b)):
+            sw = f["blocks"][a]["term"]
+            if sw["k"] == "switch":
+                d = ex.operand(sw["discr"])
+                taken = [v for v, tb in sw["targets"] if tb == sb]
+                guards.append((d, taken[0] if taken else "else"))
+        cls = None
+        not_root = False
+        for d, pol in guards:
+            lv = list(leaves(d))
+            if d[0] == "bin" and d[1] in ("Eq", "Ne", "Gt", "Lt", "Ge", "Le") and PLY in (d[2], d[3]):
+                other = d[3] if d[2] == PLY else d[2]
+                if other[0] == "c" and other[1] == 0:
+                    holds_at_root = {"Eq": True, "Ne": False, "Gt": False, "Lt": False, "Ge": True, "Le": True}[d[1]] if d[2] == PLY else {"Eq": True, "Ne": False, "Gt": False, "Lt": False, "Ge": True, "Le": True}[d[1]]
+                    edge_true = pol == "else" or pol == 1
+                    if holds_at_root != edge_true:
+                        not_root = True
+                elif other == ("param", 4) and d[1] == "Eq" and (pol == "else" or pol == 1):
+                    cls = cls or "horizon"
+            if any(x[0] == "call" and x[1].endswith("Vec::is_empty") for x in lv) and (pol == "else" or pol == 1):
+                cls = "searchmoves-empty"
+        # the block itself (or a dominating one in the same guard region) sets the stop flag
+        sets_stop = False
+        for bb in sorted(cfg.reach):
+            if cfg.dominates(bb, b) and cfg.control_deps().get(bb) == cfg.control_deps().get(b):
+                for s in f["blocks"][bb]["stmts"]:
+                    d = s["dst"]
+                    if d is not None and d["p"] and isinstance(d["p"][-1], dict) and d["p"][-1].get("name") == "stop_as_soon_as_possible" and s["rv"]["op"] == "use" and s["rv"]["a"][0].get("v") is True:
+                        sets_stop = True
+        if sets_stop:
+            cls = "time"
+        ok = not_root or cls in REVIEWED
+        last_calls = ",".join(sorted({x[1].rsplit("::", 1)[-1] for d, p in guards[-1:] for x in leaves(d) if x[0] == "call"})) or "other"
+        ctx.ob(rid, "moveless-exit|%s" % ("not-at-root:" + last_calls if not_root else (cls or last_calls)), ok,
+               "" if ok else "search_negamax returns a value without a move under `%s` also when it is the root: a go from such a position is answered with the null move although legal moves exist (the exit needs `ply_depth_from_root > 0`, or a soundness note in the rule's reviewed list)" % "; ".join(show(d)[:80] for d, p in guards[-2:]),
+               ctx.where(f, t["line"]), sample={"class": cls, "not_at_root": not_root, "reason": REVIEWED.get(cls, "")})
+    if n == 0:
+        ctx.lost(rid, "no ValuedMove::leaf exit before the move loop")
+
+
+_run_before_r7 = run
+
+
+def run(ctx):
+    _run_before_r7(ctx)
+    r7_first_result_kept(ctx)
+    r8_root_exits(ctx)
